@@ -250,6 +250,21 @@ package lalr
 //@     invariant 0 <= @i && @i <= len(c.states[state].shifts)
 //@     invariant forall q in 0..@i :: c.states[c.states[state].shifts[q]].symbol != sym
 
+// addShift: the targets of a state stay sorted by the symbol they are entered on; the new target is
+// inserted before the first one with an equal or larger symbol, nothing else moves; a terminal shift
+// next to a reduction clears the LR(0) flag.
+//@ pred shiftsOK(c *compiler, s *state) = forall k in 0..len(s.shifts) :: 0 <= s.shifts[k] && s.shifts[k] < len(c.states) && c.states[s.shifts[k]] != nil
+//@ pred shiftsSorted(c *compiler, s *state) = forall p in 0..len(s.shifts) :: forall q in p+1..len(s.shifts) :: c.states[s.shifts[p]].symbol <= c.states[s.shifts[q]].symbol
+//@ func compiler.addShift
+//@   option slice-wf
+//@   requires from != nil && to != nil && c.grammar != nil && 0 <= to.index && to.index < len(c.states) && c.states[to.index] == to && shiftsOK(c, from) && shiftsSorted(c, from)
+//@   modifies from.lr0, from.shifts, from.shifts[0:cap(from.shifts)]
+//@   ensures shiftsOK(c, from) && shiftsSorted(c, from) && len(from.shifts) == old(len(from.shifts)) + 1
+//@   ensures exists i in 0..len(from.shifts) :: from.shifts[i] == to.index && (forall k in 0..i :: from.shifts[k] == old(from.shifts[k]) && c.states[from.shifts[k]].symbol < to.symbol) && (forall k in i+1..len(from.shifts) :: from.shifts[k] == old(from.shifts[k-1]) && to.symbol <= c.states[from.shifts[k]].symbol)
+//@   ensures from.lr0 == (old(from.lr0) && !(to.symbol < c.grammar.Terminals && len(from.reduce) > 0))
+//@   loop 1:
+//@     invariant 0 <= i && i < len(from.shifts) && forall k in 0..i :: c.states[from.shifts[k]].symbol < to.symbol
+
 // stateClosure: the items of a state = its core plus, for every core item with a nonterminal after the
 // dot, all items of that nonterminal's closure set (an input state: the closure set of its nonterminal).
 //@ pred closureRows(c *compiler, out BitSet) = len(c.right) <= 32*len(out) && forall k in 0..len(c.rules) :: len(c.rules[k]) == len(out) && otherarray(c.rules[k], out)
